@@ -303,7 +303,17 @@ def run_case(ctx, case):
   for step in range(1, case["steps"] + 1):
     idx = rng.randint(0, n, size=16)
     xb = Xt[idx] if isinstance(Xt, np.ndarray) else [x[idx] for x in Xt]
-    model.train_on_batch(xb, yt[idx])
+    try:
+      model.train_on_batch(xb, yt[idx])
+    except Exception as e:
+      # the forward pass of the step itself can hit the same out-of-range index as model.predict in _judge (a calibrator
+      # that left [0, size-1] feeding a clip_inputs=False simplex lattice): same attribution, and the history ends here
+      hooks = _hooks(model, desc)
+      fk = "KF-C05-a" if hooks["degenerate_learned_keypoint_any"] else findings.classify_c03(step, "exception", _calibrator_ranges(model), core.REL_TOL, hooks)
+      ctx.check("state/finite", False, "training step raised %s with finite weights (%s(lr=%g) step %d): %s" % (
+          type(e).__name__, optname, case["lr"], step, str(e).strip().splitlines()[-1][:200]), info={"step": step, "hooks": hooks}, finding=fk)
+      alive = False
+      break
     r = _judge(ctx, case, model, step, "%s(lr=%g) step %d" % (optname, case["lr"], step))
     if r is None:
       alive = False
